@@ -40,7 +40,7 @@ pub fn prop() -> HistProp {
             long(p, t)
         },
         cfgs: cfg_strategy,
-        quick: 1500,
+        quick: 4000,
         thorough: 40000,
         mk: |_, _, _| {
             Box::new(C01 {
